@@ -1,5 +1,5 @@
 #!/bin/bash
-# tools/lab_eval.sh <seed-name|none> <VERIF_SEED> <tier> <ID> [<ID>...]
+# tools/lab_eval.sh <seed-name|patch-file|none> <VERIF_SEED> <tier> <ID> [<ID>...]
 # Evaluates checks against a seeded break WITHOUT touching /repo: uses a scratch worktree of /repo
 # (/tmp/lab_repo) and a copy of the harness (/tmp/lab_verif) whose go.mod points at that worktree.
 # Prints one line per check. Remove /tmp/lab_* when done (tools/lab_eval.sh clean).
@@ -11,7 +11,8 @@ LAB=/tmp/lab${LABNAME}_repo; LV=/tmp/lab${LABNAME}_verif
 git -C $LAB checkout -q --detach $(git -C /repo rev-parse HEAD) 2>/dev/null; git -C $LAB checkout -q -- . ; git -C $LAB clean -fdq
 mkdir -p $LV; rsync -a --delete --exclude evidence --exclude replays --exclude scratch --exclude bin --exclude .git /verif/ $LV/
 sed -i "s#=> /repo/gnark-plonky2-verifier#=> $LAB/gnark-plonky2-verifier#" $LV/harness/go.mod
-if [ "$NAME" != "none" ]; then git -C $LAB apply /verif/seeded/$NAME/patch.diff || { echo "patch does not apply"; exit 2; }; fi
+PATCH=/verif/seeded/$NAME/patch.diff; [ -f "$NAME" ] && PATCH=$NAME
+if [ "$NAME" != "none" ]; then git -C $LAB apply $PATCH || { echo "patch does not apply"; exit 2; }; fi
 cd $LV
 for id in "$@"; do
   out=$(VERIF_ROOT=$LV VERIF_REPO=$LAB VERIF_SEED=$VS ./run.sh $id $TIER 2>&1); code=$?
